@@ -13,7 +13,8 @@ ASSUME = ["no reference implementation of Thrift is available offline: only clau
 
 def run(tier, seed):
     return thriftcommon.run(PROP, tier, seed, RULE, ASSUME, shards=4, isolate=(PROP != "C13"),
-                            vlimit_kb=(6000000 if PROP == "C08" else None))
+                            vlimit_kb=(6000000 if PROP == "C08" else None),
+                            map_entries=(1 if PROP == "C13" else 2))   # byte-exact comparison needs a fixed member order
 
 
 def replay(path, seed):
